@@ -112,17 +112,22 @@ def features(case):
     return f
 
 
+def style_fn(c):
+    import hashlib, json as _j
+    h = int(hashlib.md5(_j.dumps(c['doc'], sort_keys=True).encode()).hexdigest(), 16)
+    if h % 3 == 1 and mapcase.yarrrml_ok(c):
+        return mapcase.Style(vocab='yarrrml')        # YARRRML-star: quoted / quotedNonAsserted
+    return mapcase.Style(vocab='legacy') if h % 3 == 0 else None
+
+
 def run(ctx, res):
     res.rule = ('chains of quoted triples maps (depth 1-3) in subject, object or both positions, with and without join conditions, same and other source, '
                 'asserted and non-asserted, quoted maps with several predicate-object maps / predicates / objects, NULLs inside the quoted triple, all three '
                 'partitioning modes; implementation against the Engine model and the Spec; distinct = distinct case; non-trivial = at least one RDF-star statement prescribed')
     cases = [c for c in (gen_star_case(ctx.rng) for _ in range(ctx.scale(160, 4000))) if expansion_size(c) <= 40]
-    # a third of the cases is written in the legacy RML vocabulary (its own quotedTriplesMap / NonAssertedTriplesMap / subjectMap terms)
-    def style_fn(c):
-        import hashlib, json as _j
-        h = int(hashlib.md5(_j.dumps(c['doc'], sort_keys=True).encode()).hexdigest(), 16)
-        return mapcase.Style(vocab='legacy') if h % 3 == 0 else None
+    # a third of the cases that YARRRML can express is written in YARRRML; a third of the cases is written in the legacy RML vocabulary (its own quotedTriplesMap / NonAssertedTriplesMap / subjectMap terms)
     family.run_family(ctx, res, cases, features, style_fn=style_fn)
 
 
-replay = family.replay_family
+def replay(ctx, res, payload):
+    family.replay_family(ctx, res, payload, style_fn=style_fn)
